@@ -463,7 +463,7 @@ class SimLock:
             if self._owner is None:
                 self._owner = 'ext'
                 return True
-            if not blocking:
+            if not blocking or timeout == 0:
                 return False
             c = CUR[0]
             if c is not None:
@@ -529,7 +529,7 @@ class SimRLock:
             self._owner = who
             self._depth = 1
             return True
-        if not blocking:
+        if not blocking or (s is None and timeout == 0):
             return False
         if s is None:
             raise HarnessFault('sim rlock contended from an unregistered thread')
